@@ -225,6 +225,8 @@ def c06(tier):
             nn2 = M * r.randint(1, max(1, 192 // M)) - r.choice([0, 1]) - cy
             if kk >= 0 and nn2 >= 0:
                 offs.append((kk, nn2))
+        if max(len(x) for x in t.split("\n")) >= 100:
+            offs.append((r.randint(386, 400), r.randint(0, 30)))      # the longest rows the quantifier allows
         # one far offset per base: f32 geometry at large magnitudes
         offs.append(r.choice([(r.randint(250, 400), r.randint(0, 20)), (r.randint(0, 20), r.randint(126, 200)),
                               (r.randint(200, 400), r.randint(100, 200))]))
@@ -2274,6 +2276,25 @@ def c20(tier):
             evs.append({"client": cid, "seq": n, "class": "get", "status": st, "body_sha": shells.sha(body), "want_sha": hello_sha})
             return evs
         events += client(0, nreq)            # sequential phase
+        # a four-byte character at every alignment in bodies of several sizes (a decoder fed in pieces must put it together),
+        # sent in one piece, in two writes cut inside the character, and with chunked transfer encoding
+        uni_bodies = []
+        for size in (1, 4093, 8189, 12281, 16381, 65533):
+            for pad in range(4):
+                uni_bodies.append("+--+\n|ab|\n+--+\n" + " " * (size + pad) + "\U0001F600 x\n" + "é" * 3 + "\U00020000")
+        convert_many([(t, {}) for t in uni_bodies])
+        for k_, t in enumerate(uni_bodies):
+            want = shells.sha(convert(t, {}).encode("utf-8"))
+            raw = t.encode("utf-8")
+            cut = raw.index("\U0001F600".encode("utf-8")) + 3
+            for mode in ("plain", "split", "chunked"):
+                if mode == "plain":
+                    st, body = shells.http_request(srv.port, "POST", "/", raw, timeout=120)
+                elif mode == "chunked":
+                    st, body = shells.http_request(srv.port, "POST", "/", iter([raw[:cut], raw[cut:]]), timeout=120)
+                else:
+                    st, body = shells.split_post(srv.port, raw, cut)
+                events.append({"client": 0, "seq": 6000 + 3 * k_, "class": "post_ok", "status": st, "body_sha": shells.sha(body), "want_sha": want})
         # every special body once, deliberately: U+FFFD in valid UTF-8, and bodies just below and exactly at the limit
         for k_, t in enumerate([x for x in corpus if "\ufffd" in x or len(x) > 1900000]):
             st, body = shells.http_request(srv.port, "POST", "/", t.encode("utf-8"), timeout=120)
